@@ -1,7 +1,7 @@
 (* oracle/thread/driver.ml — glue only.
    "<id> S <tbc 0|1> <nslots> <act>;<act>;..."  -> runs srun, prints
        "<id> <ok|error> T:<events> R:<values> G:<coroutines alive>"
-   "<id> P <current|old|repaired> <g>:<label>;..." -> runs Proto.first_reject from Proto.init,
+   "<id> P <current|old|oldh> <g>:<label>;..." -> runs Proto.first_reject from Proto.init,
        prints "<id> accept" or "<id> reject <index>" *)
 open Model
 open Proto
@@ -59,6 +59,7 @@ let parse_label (s : string) : label =
   let num k = nat_of_int (int_of_string (tail_from s k)) in
   if s = "C" then LCreate else if s = "D" then LRdv else if s = "HY" then LHYield
   else if String.length s > 2 && String.sub s 0 2 = "HR" then LHResume (num 2)
+  else if String.length s > 2 && String.sub s 0 2 = "HD" then LHDone (parse_msg (tail_from s 2))
   else match s.[0] with
   | 'R' -> (match split_on '.' (tail_from s 1) with
             | [t; v] -> LResume (nat_of_int (int_of_string t), nat_of_int (int_of_string v))
@@ -91,7 +92,7 @@ let () =
       Printf.printf "%s %s T:%s R:%s G:%d\n" id status tr ret (int_of_nat (alive s))
     | id :: "P" :: cf :: rest ->
       let tr = match rest with [] -> [] | s :: _ -> List.filter (fun x -> x <> "") (split_on ';' s) in
-      let c = match cf with "old" -> old_order | "repaired" -> repaired | _ -> current in
+      let c = match cf with "old" -> old_order | "oldh" -> old_handlers | _ -> current in
       (match first_reject c init (List.map parse_action tr) O with
        | None -> Printf.printf "%s accept\n" id
        | Some i -> Printf.printf "%s reject %d\n" id (int_of_nat i))
